@@ -797,7 +797,7 @@ def variant_library(name, lib, seed, memo):
     """A library built through the real constructor from a shipped one, changed so that the two late failure stages of `Estimate`
     become reachable (no shipped library reaches them): for a library with uncertainty data one descriptor that occurs in some of
     the molecules tried is taken out of the basis (matrix row/column removed) — `ValueError` from `list.index`; and two descriptors
-    that occur in different molecules get disjoint validity ranges (`set_range` on copies of their correlations) — `AssertionError`
+    that occur in different molecules get disjoint validity ranges (table-less copies of their correlations with narrower ranges) — `AssertionError`
     for a molecule or mixture containing both.  Deterministic in (library, seed, the molecules' descriptors)."""
     import random, copy
     import numpy as np
@@ -834,8 +834,10 @@ def variant_library(name, lib, seed, memo):
         nm = str(k)
         if nm in (da, db) and SET in ps:
             lo, hi = (float(v) for v in ps[SET].get_range())
-            c2 = copy.copy(ps[SET])
-            c2.set_range((lo, split - 1.0) if nm == da else (split + 1.0, hi))
+            # a valid correlation with the narrower range: the reference values without the table (set_range on a copy is no
+            # longer a way to get an object whose range does not contain its table: finding F32, repaired)
+            c0 = ps[SET]
+            c2 = type(c0)(c0.ND_H_ref, c0.ND_S_ref, {}, c0.T_ref, (lo, split - 1.0) if nm == da else (split + 1.0, hi))
             ps = dict(ps)
             ps[SET] = c2
         contents.append((k, ps))
